@@ -355,9 +355,10 @@ func ruleSizeAgreement(c *Ctx, rule string) {
 			}
 		} else if sameCallValue(sz, delivered, 0) {
 			// the size handed to the buffered file must be the size reported by Stat() of the very file that is wrapped
+			// (a helper that hands its first argument back or panics - must(f.Stat()) - is seen through)
 			if sc, ok := delivered.(*ssa.Call); ok && sc.Call.IsInvoke() && sc.Call.Method.Name() == "Size" {
-				if ex, ok := sc.Call.Value.(*ssa.Extract); ok && ex.Index == 0 {
-					if stat, ok := ex.Tuple.(*ssa.Call); ok && stat.Call.StaticCallee() != nil && stat.Call.StaticCallee().Name() == "Stat" && len(stat.Call.Args) == 1 && stat.Call.Args[0] == strip(cc.Call.Args[0]) {
+				if ex, ok := unwrapMust(sc.Call.Value).(*ssa.Extract); ok && ex.Index == 0 {
+					if stat, ok := ex.Tuple.(*ssa.Call); ok && stat.Call.StaticCallee() != nil && stat.Call.StaticCallee().Name() == "Stat" && len(stat.Call.Args) == 1 && sameCallValue(unwrapMust(stat.Call.Args[0]), unwrapMust(strip(cc.Call.Args[0])), 0) {
 						okSize = true
 					}
 				}
@@ -886,10 +887,26 @@ func ruleWhoWritesFiles(c *Ctx, rule string) {
 			b, ok := p.Type().Underlying().(*types.Basic)
 			return ok && b.Kind() == types.Bool
 		}
+		rfCds := NewPostDom(rf0).ControlDeps()
 		instrsOf(rf0, func(in ssa.Instruction) {
-			if st, ok := in.(*ssa.Store); ok && isFlagParam(st.Val) {
-				if fa, ok := st.Addr.(*ssa.FieldAddr); ok {
-					flagFields[fkey{types.TypeString(deref(fa.X.Type()), nil), fa.Field}] = true
+			st, ok := in.(*ssa.Store)
+			if !ok {
+				return
+			}
+			fa, ok := st.Addr.(*ssa.FieldAddr)
+			if !ok {
+				return
+			}
+			if isFlagParam(st.Val) {
+				flagFields[fkey{types.TypeString(deref(fa.X.Type()), nil), fa.Field}] = true
+				return
+			}
+			// the flag translated into a setting: `if processFilenames { run = fileRun{renameFiles: true, ...} }`
+			if k, ok := st.Val.(*ssa.Const); ok && k.Value != nil && k.Value.Kind() == constant.Bool && constant.BoolVal(k.Value) {
+				for _, l := range condsOf(rfCds, st.Block()) {
+					if isFlagParam(l.Cond) && l.Pol {
+						flagFields[fkey{types.TypeString(deref(fa.X.Type()), nil), fa.Field}] = true
+					}
 				}
 			}
 		})
@@ -2275,4 +2292,40 @@ func fieldOfParam(fn *ssa.Function, v ssa.Value) (int, string) {
 		}
 	}
 	return -1, ""
+}
+
+// unwrapMust sees through a helper of the repository that hands its first argument back on every return (and panics otherwise):
+// must(value, err) is value.
+func unwrapMust(v ssa.Value) ssa.Value {
+	for i := 0; i < 4; i++ {
+		call, ok := v.(*ssa.Call)
+		if !ok || len(call.Call.Args) == 0 {
+			return v
+		}
+		sc := call.Call.StaticCallee()
+		if sc == nil || len(sc.Blocks) == 0 || len(sc.Params) == 0 || sc.Pkg == nil && sc.Origin() == nil {
+			return v
+		}
+		pkg := sc.Pkg
+		if pkg == nil && sc.Origin() != nil {
+			pkg = sc.Origin().Pkg
+		}
+		if pkg == nil || !strings.HasPrefix(pkg.Pkg.Path(), modRoot) {
+			return v
+		}
+		identity, nret := true, 0
+		instrsOf(sc, func(in ssa.Instruction) {
+			if ret, ok := in.(*ssa.Return); ok {
+				nret++
+				if len(ret.Results) != 1 || ret.Results[0] != ssa.Value(sc.Params[0]) {
+					identity = false
+				}
+			}
+		})
+		if !identity || nret == 0 {
+			return v
+		}
+		v = call.Call.Args[0]
+	}
+	return v
 }
